@@ -339,6 +339,9 @@ func specInScope(stack []scope, n int, s scope) bool {
 //@   flag modular: true
 //
 //@ func (*Parser).evaluateVarDefinition
+//@   loop @"range values" invariant[C06] types-of-the-values-in-order: len(valuesTypes) == rangeindex + 1 && forall(k, 0, len(valuesTypes), valuesTypes[k] == values[k].ValueType())
+//@   loop @"range variables#1" invariant[C06] variables-so-far-take-a-value-of-their-type: len(variables) == len(valuesTypes) && forall(k, 0, rangeindex + 1, variables[k].valueType.Equals(valuesTypes[k]))
+//@   ensures[C06] each-value-has-the-type-of-its-variable: err == nil && isType(result0, "parser.VariableDefinition") && calls(evaluateValues) == 1 ==> len(asType(result0, "parser.VariableDefinition").variables) == len(asType(result0, "parser.VariableDefinition").values) && forall(k, 0, len(asType(result0, "parser.VariableDefinition").values), asType(result0, "parser.VariableDefinition").variables[k].valueType.Equals(asType(result0, "parser.VariableDefinition").values[k].ValueType()))
 //@   callsite evaluateValues requires[C12] initial-values-only-when-something-follows: p.peek().tokenType != lexer.NEWLINE && p.peek().tokenType != lexer.EOF
 //@   ensures[C12] declaration-may-end-the-file: calls(evaluateValues) <= 1
 //
